@@ -12,7 +12,7 @@ ASSUMPTIONS = [
     "simulated behaviours replayed on real nodes step by step and with whole exchanges run by the real poller code; after every pair has "
     "exchanged no node computes a difference against any other and all reads are identical (C05_NothingLeft, C01_Converges); every diff the real "
     "keyspace actors answered is validated against DiffSpec by Trace_KeyspaceActor.tla",
-    "at scale: single real poller rounds for 1 .. 55 557 documents (with tombstones, the receiver holding older versions of some); the expectation is the "
+    "at scale: single real poller rounds for 1 .. 166 668 documents (thorough: 333 335) (with tombstones, the receiver holding older versions of some); the expectation is the "
     "statement's - after the exchange the receiver holds what the sender holds - compared on the two storages; six more exchanges (1, 2, 7 documents) have one fault "
     "in them - the receiver's storage refuses the first repair write, or the sender's storage refuses the read behind the first fetch: such an exchange must not count as "
     "done, four more rounds of the same poller (same keyspace tracker) have to repair",
@@ -21,19 +21,20 @@ ASSUMPTIONS = [
 
 def large_exchanges(ctx):
     """One real poller round between a node holding N documents and tombstones and a node holding nothing (or older versions
-    of some), N around the poller's batching limits (1, 2, 3, ~1 000, ~5 000, 55 557): afterwards the two storages list the
+    of some), N around the poller's batching limits (1, 2, 3, ~1 000, ~5 000, 55 557, 111 112, 166 668): afterwards the two storages list the
     same ids, stamps and kinds and hold the same bytes - the statement's 'one exchange repairs' at sizes the model's two keys
     cannot reach."""
     binary = vlib.build_harness(ctx, "h-ec")
     out = ctx.path("large_exchange.json")
-    sizes = "1,2,3,999,1000,1001,4097,10001,55556,55557" if ctx.tier == "quick" else "1,2,3,9,10,11,999,1000,1001,4097,4999,9999,10000,10001,20001,49999,50000,50001,55555,55556,55557,111112"
+    # every tenth document is deleted: 55 557 / 111 112 / 166 668 / 222 224 documents are 50 001 / 100 001 / 150 001 / 200 001 modified ones (multiples of the poller's fetch limit, plus one)
+    sizes = "1,2,3,999,1000,1001,4097,10001,55556,55557,111112,166668" if ctx.tier == "quick" else "1,2,3,9,10,11,999,1000,1001,4097,4999,9999,10000,10001,20001,49999,50000,50001,55555,55556,55557,111111,111112,166668,222224,333335"
     # differences of removals only, of sizes just past the round numbers a batching of removals may use (the poller hands all of them over at once today)
     removals = "1001,4097,10001,20001" if ctx.tier == "quick" else "2,3,1001,1025,4097,8193,10001,16385,20001,32769,50001,65537,100001"
     vlib.run_harness(ctx, [binary, "large-exchange", "--out", out, "--sizes", sizes, "--removal-sizes", removals], timeout=3000)
     rep = vlib.load_json(out)
     if rep["evaluations"] == 0 or rep["entries"] < 50000 or (rep["violation_count"] == 0 and rep.get("faults_run_into", 0) < rep.get("faulty_exchanges", 1)):
         raise vlib.ToolError("vacuous large-exchange run: %s" % {k: rep.get(k) for k in ("evaluations", "entries", "faulty_exchanges", "faults_run_into")})
-    ctx.log("large exchanges: %d exchanges of up to 55 557 documents through the real poller: %d leave the two nodes apart" % (
+    ctx.log("large exchanges: %d exchanges of up to 166 668 documents through the real poller: %d leave the two nodes apart" % (
         rep["evaluations"], rep["violation_count"]))
     for v in rep["violations"][:3]:
         ctx.violations.append(dict(engine="h-ec large-exchange", **v))
